@@ -307,13 +307,28 @@ _setter_contract("nugget", "_nugget", [0.0, np.inf, "co"], CLASSES)
 @contract(P, "CovModel.len_scale.setter[scalar]/state", params=configs(CLASSES),
           functions=["covmodel/base.py:CovModel.len_scale", "covmodel/tools.py:set_len_anis"])
 def len_scalar(ctx, cls, dim, latlon, temporal):
+    _len_single(ctx, cls, dim, latlon, temporal, "scalar")
+
+
+@contract(P, "CovModel.len_scale.setter[single-value-in-a-sequence]/anisotropy-kept",
+          params=[dict(c, form=f) for c in configs(REPR) for f in ("list", "tuple", "ndarray")],
+          functions=["covmodel/base.py:CovModel.len_scale", "covmodel/tools.py:set_len_anis"])
+def len_single_seq(ctx, cls, dim, latlon, temporal, form):
+    """'anis ... will be recalculated if len_scale is given by AT LEAST TWO values': one value, however it is
+    wrapped, is a scalar length scale and changes nothing else"""
+    _len_single(ctx, cls, dim, latlon, temporal, form)
+
+
+def _len_single(ctx, cls, dim, latlon, temporal, form):
     a, opt, ob, mdim = sym_args(ctx, cls, dim, latlon, temporal)
     m = build(cls, dim, latlon, temporal, a, opt)
     old = view(m)
     x = ctx.real("x")
     ok = ctx.gt(x, 0)
+    given = {"scalar": lambda: x, "list": lambda: [x], "tuple": lambda: (x,),
+             "ndarray": lambda: np.array([x], dtype=object if ctx.mode == "sym" else float)}[form]()
     try:
-        m.len_scale = x
+        m.len_scale = given
     except ValueError:
         ctx.ensure("rejected=>out-of-bounds", ctx.Not(ok))
         ctx.ensure("rejected=>state-unchanged", view_eq(ctx, view(m), old))
